@@ -108,12 +108,15 @@ def fit_compose(case, ctx):
     eps = np.finfo(float).eps
     tol = cond * 256 * eps * float(np.max(np.abs(c))) * np.sqrt(len(c)) * max(1.0, np.sqrt(mask.size) / 16) + 1e-300
     with lentil_call("C12.fit", "zernike_fit"):
-        got = np.asarray(lentil.zernike_fit(opd, mask, modes, normalize=case["normalize"], **kw), dtype=float)
+        # the mode list in any ordered list-like container
+        margs, mform = gen.as_container(modes, sum(modes) + len(modes) + int(mask.shape[0]), array_like=True)
+        ctx.tag("modes_as:" + mform)
+        got = np.asarray(lentil.zernike_fit(opd, mask, margs, normalize=case["normalize"], **kw), dtype=float)
     if got.shape != c.shape or np.max(np.abs(got - c)) > tol:
         raise Violation("C12.fit.roundtrip", f"zernike_fit(modes={modes}, normalize={case['normalize']}, "
                                              f"coords={case['coords']}) = {got.tolist()}, composed with {c.tolist()}")
     with lentil_call("C12.basis", "zernike_basis"):
-        zb = lentil.zernike_basis(mask, modes, normalize=case["normalize"], **kw)
+        zb = lentil.zernike_basis(mask, margs, normalize=case["normalize"], **kw)
         zbv = lentil.zernike_basis(mask, modes, vectorize=True, normalize=case["normalize"], **kw)
     if zb.shape != B.shape or np.max(np.abs(zb - B)) > 1e-12 * (1 + np.max(np.abs(B))):
         raise Violation("C12.basis.order", f"zernike_basis(modes={modes}) is not the stack of the requested modes")
@@ -147,7 +150,7 @@ def remove(case, ctx):
     eps = np.finfo(float).eps
     scale = float(np.max(np.abs(c))) * len(c) + np.max(np.abs(noise)) + 1e-300
     tol = cond * 512 * eps * scale * np.sqrt(mask.size)
-    marg = modes[0] if (len(modes) == 1 and case["scalar_mode"]) else modes
+    marg = modes[0] if (len(modes) == 1 and case["scalar_mode"]) else gen.as_container(modes, sum(modes) + int(mask.shape[1]), array_like=True)[0]
     opd = gen.relayout(opd, ["C", "F", "strided", "transposed_view"][len(modes) % 4])
     mask = gen.relayout(mask, ["C", "F", "reversed"][mask.shape[1] % 3])
     opd0 = opd.copy()
@@ -234,3 +237,36 @@ def coords_history(case, ctx):
                 zero = np.asarray(lentil.zernike_remove(opd, mask, modes, **kw), dtype=float)
             if np.max(np.abs(zero[mask != 0])) > tol * np.sqrt(mask.size) * 4:
                 raise Violation("C12.history.remove", f"step {i}: an OPD made only of modes {modes} is not removed")
+
+
+# --- masks of more than a million samples ------------------------------------------------------------------------
+
+@hyp("C12", "mega", lambda tier: st.fixed_dictionaries({"shape": gen.mega_shape().map(list),
+                                                        "modes": st.lists(st.integers(1, 11), min_size=2, max_size=4, unique=True),
+                                                        "seed": st.integers(0, 2**31 - 1)}),
+     "fit(compose(c)) == c and remove(pure) == 0 on a mask of more than 2^20 samples", examples=(2, 8),
+     budget_s=(200, 800))
+def mega(case, ctx):
+    m, n = case["shape"]
+    modes = case["modes"]
+    rng = np.random.default_rng(case["seed"])
+    yy, xx = np.mgrid[0:m, 0:n]
+    mask = (((yy - m / 2) / (0.46 * m)) ** 2 + ((xx - n / 2) / (0.47 * n)) ** 2 <= 1).astype(int)
+    c = rng.uniform(-3, 3, size=len(modes))
+    ctx.tag("mega", f"k:{len(modes)}")
+    ctx.nontrivial_if(True)
+    with lentil_call("C12.mega", f"zernike_basis / fit / remove on a {m}x{n} mask"):
+        B = lentil.zernike_basis(mask, modes)
+        opd = np.einsum("i,ijk->jk", c, B)
+        got = np.asarray(lentil.zernike_fit(opd, mask, modes), dtype=float)
+        res = np.asarray(lentil.zernike_remove(opd, mask, modes), dtype=float)
+    A = B.reshape(len(modes), -1)[:, mask.ravel() != 0]
+    sv = np.linalg.svd(A, compute_uv=False)
+    cond = float(sv[0] / sv[-1])
+    tol = cond * 256 * np.finfo(float).eps * 3.0 * np.sqrt(mask.size)
+    if np.max(np.abs(got - c)) > tol:
+        raise Violation("C12.mega.roundtrip", f"zernike_fit(modes={modes}) on a {m}x{n} mask = {got.tolist()}, composed "
+                                              f"with {c.tolist()}")
+    if np.max(np.abs(res[mask != 0])) > tol * 10:
+        raise Violation("C12.mega.remove", f"zernike_remove of an OPD made of the removed modes leaves "
+                                           f"{np.max(np.abs(res[mask != 0])):.3e} on a {m}x{n} mask")
